@@ -27,9 +27,14 @@ namespace cds { namespace intrusive { namespace split_list {
 namespace cds { namespace intrusive {
 #define VX_SHELL(NAME, BN, PB) \
     struct NAME { struct memory_model { static const atomics::memory_order memory_order_relaxed = atomics::memory_order_relaxed; }; atomics::atomic<size_t> m_nBucketCountLog2;
+    struct vx_counter { size_t n; size_t operator++() { return ++n; } };
+    struct vx_buckets { size_t cap, lf; size_t capacity() const { return cap; } size_t load_factor() const { return lf; } };
     VX_SHELL(shell_hp, 0, 0)
+        atomics::atomic<size_t> m_nMaxItemCount; vx_counter m_ItemCounter; vx_buckets m_Buckets;
 #include <bucket_no_hp.inc>
 #include <parent_bucket_hp.inc>
+#include <max_item_count.inc>
+#include <inc_item_count.inc>
     };
     VX_SHELL(shell_rcu, 0, 0)
 #include <bucket_no_rcu.inc>
@@ -53,3 +58,9 @@ extern "C" size_t w_dummy_hash_muldiv(size_t h)   { return SL::dummy_hash<muldiv
     extern "C" size_t w_bucket_no_##T(size_t k, size_t h) { cds::intrusive::S s; s.m_nBucketCountLog2.store(k); return s.bucket_no(h); } \
     extern "C" size_t w_parent_bucket_##T(size_t b) { return cds::intrusive::S::parent_bucket(b); }
 VX_W(hp, shell_hp) VX_W(rcu, shell_rcu) VX_W(nogc, shell_nogc)
+
+extern "C" void w_inc_item_count(size_t* log2, size_t* maxcnt, size_t* items, size_t cap, size_t lf) {
+    cds::intrusive::shell_hp s; s.m_nBucketCountLog2.store(*log2); s.m_nMaxItemCount.store(*maxcnt); s.m_ItemCounter.n = *items; s.m_Buckets.cap = cap; s.m_Buckets.lf = lf;
+    s.inc_item_count();
+    *log2 = s.m_nBucketCountLog2.load(); *maxcnt = s.m_nMaxItemCount.load(); *items = s.m_ItemCounter.n;
+}
